@@ -378,6 +378,7 @@ func runC17(c *Check) {
 		c.selfAccumulation(mis)
 	}
 	c.c17H()
+	c.searchNamesAlignedWithSources()
 }
 
 // selfAccumulation (R7): a source's self value is the sum of the stacks it terminates.
